@@ -313,6 +313,9 @@ func (im *imager) action(a *workflow.Action) ActionImg {
 func (im *imager) actions(as []*workflow.Action) []ActionImg {
 	out := []ActionImg{}
 	for _, a := range as {
+		if a == nil {
+			continue // nil children are not objects: walk skips them (fix 87d37cc), Validate rejects them
+		}
 		out = append(out, im.action(a))
 	}
 	return out
@@ -339,6 +342,9 @@ func (im *imager) block(b *workflow.Block) BlockImg {
 		Bypass: im.checks(b.BypassChecks), Pre: im.checks(b.PreChecks), Cont: im.checks(b.ContChecks), Post: im.checks(b.PostChecks), Deferred: im.checks(b.DeferredChecks),
 		Seqs: []SeqImg{}}
 	for _, q := range b.Sequences {
+		if q == nil {
+			continue
+		}
 		out.Seqs = append(out.Seqs, im.seq(q))
 	}
 	return out
@@ -351,6 +357,9 @@ func (im *imager) plan(p *workflow.Plan) PlanImg {
 		Bypass: im.checks(p.BypassChecks), Pre: im.checks(p.PreChecks), Cont: im.checks(p.ContChecks), Post: im.checks(p.PostChecks), Deferred: im.checks(p.DeferredChecks),
 		Blocks: []BlockImg{}}
 	for _, b := range p.Blocks {
+		if b == nil {
+			continue
+		}
 		out.Blocks = append(out.Blocks, im.block(b))
 	}
 	return out
